@@ -106,6 +106,19 @@ def gen_case(rng: Rng, i: int, tier: str):
         return {"base": {"handmade": "external_names"}, "kind": "external_names", "mseed": r.randrange(1 << 30),
                 "seq": [{"op": op} for op in ["getnames", "list", "test", "testzip", "extractall_f"]][: r2.randint(1, 5)], "open": r.pick(["stream", "path", "anon"]),
                 "chunk": 128000000, "nfiles": r2.pick([1, 1, 2, 3]), "pad": r2.pick([0, 0, 3, 40]), "where": r2.pick(["self", "self", "self", "emptystream", "start", "last", "beyond", "terminator"])}
+    rcp = rng.sub("codec_props")
+    if rcp.chance(0.01):
+        # directed: a small archive whose coder properties declare the largest working memory the format can express (LZMA / LZMA2
+        # dictionary, PPMd model) - or one just above what the data needs
+        chain = rcp.pick([[{"id": "LZMA"}], [{"id": "LZMA2"}], [{"id": "PPMD", "order": 6, "mem": 16}], [{"id": "X86"}, {"id": "LZMA"}], [{"id": "DELTA"}, {"id": "LZMA2"}]])
+        members = [{"name": "m%d.bin" % k, "kind": "file", "content": {"tex": "text", "len": 300 + 50 * k, "seed": rcp.randrange(1 << 30)}, "mtime": None, "ctime": None,
+                    "atime": None, "attrs": None} for k in range(4)]
+        # one solid folder, or four folders (four decoders, each with a dictionary of its own, alive in one session)
+        folders = [{"members": [0, 1, 2, 3], "chain": chain}] if rcp.chance(0.5) else [{"members": [k], "chain": [dict(f) for f in chain]} for k in range(4)]
+        layout = {"folders": folders, "crc": "substream", "header": "raw", "packcrc": False, "packpos": 0, "omit_nums": False, "dummy": 0,
+                  "dummy_tail": 0, "emptyfile_vector_always": False, "names_first": True, "password": None, "iv_seed": 1, "no_substreams": False, "header_crc": True}
+        return {"base": {"ref": {"members": members, "layout": layout}}, "kind": "codec_props", "mseed": r.randrange(1 << 30), "declare": rcp.pick(["max", "max", "4GiB-1", "1GiB", "1.5GiB"]),
+                "seq": [{"op": op} for op in rcp.pick([["getnames", "extractall_f"], ["testzip"], ["list", "test", "extractall_f"]])], "open": rcp.pick(["stream", "path"]), "chunk": 128000000}
     if r2.chance(0.06):
         # the record that describes the packed header (kEncodedHeader StreamsInfo) is mutated like the header itself
         kind = "outer_structure"
@@ -211,6 +224,25 @@ def make_input(case):
         toks, desc = M.mutate(toks, r)
         raw = M.serialise(toks)
         data = W.reseal(img, raw, keep_upto=32 + (a.data_end or 0) if a.header_kind == "encoded" else None)
+        entered = True
+    elif kind == "codec_props" and a is not None and a.header_bytes:
+        toks = M.tokenize(a.header_bytes)
+        want = {"max": 0xFFFFFFFF, "4GiB-1": 0xFFFFFFFE, "1GiB": 1 << 30, "1.5GiB": 3 << 29}[case["declare"]]
+        for k, t in enumerate(toks):
+            if t.label == "props" and k >= 2:
+                mid = bytes(toks[k - 2].val)
+                pv = bytearray(t.val)
+                if mid == b"\x03\x01\x01" and len(pv) >= 5:  # LZMA: lc/lp/pb byte, dictionary size
+                    pv[1:5] = struct.pack("<I", want)
+                elif mid == b"\x21" and len(pv) >= 1:  # LZMA2: one byte, 40 = 4 GiB - 1
+                    pv[0] = {0xFFFFFFFF: 40, 0xFFFFFFFE: 40, 1 << 30: 38, 3 << 29: 39}[want]
+                elif mid == b"\x03\x04\x01" and len(pv) >= 5:  # PPMd: order byte, model memory
+                    pv[1:5] = struct.pack("<I", want)
+                else:
+                    continue
+                t.val = bytes(pv)
+                desc.append("coder %s declares %d bytes of working memory" % (mid.hex(), want))
+        data = W.reseal(img, M.serialise(toks))
         entered = True
     elif kind == "external_names":
         data = img
